@@ -15,4 +15,18 @@ pub mod spec;
 #[cfg(kani)]
 pub mod instr;
 #[cfg(kani)]
+pub mod c14_determinism;
+#[cfg(kani)]
 pub mod c16_stack;
+#[cfg(kani)]
+pub mod c17_buffer;
+#[cfg(kani)]
+pub mod c02_run;
+#[cfg(kani)]
+pub mod c12_codegen;
+#[cfg(kani)]
+pub mod c13_random;
+#[cfg(kani)]
+pub mod topo_ref;
+#[cfg(kani)]
+pub mod c20_topology;
